@@ -466,6 +466,27 @@ package gorm
 //@   in gorm.(*Statement).AddVar
 //@   min-sites 1
 //@   assert starts-from-parents-values: len(arg1.Statement.Vars) >= len(stmt.Vars) && forall(k, 0, len(stmt.Vars), arg1.Statement.Vars[k] == stmt.Vars[k]) [C01]
+//@ # AddVar itself writes only fixed punctuation, "(NULL)" and the text a sub-query rendered; no builder turns a
+//@ # value into text (the one way a value could reach the SQL text instead of the argument list).
+//@ ghost RENDERED
+//@ event call strings.(*Builder).String
+//@   in gorm.(*Statement).AddVar
+//@   do RENDERED = result
+//@ site addvar-writes-no-value-text
+//@   match invoke Writer.WriteString
+//@   in gorm.(*Statement).AddVar
+//@   min-sites 3
+//@   assert fixed-text-or-rendered-subquery: arg0 == "(NULL)" || arg0 == RENDERED [C01]
+//@ site addvar-writes-only-punctuation-bytes
+//@   match invoke Writer.WriteByte
+//@   in gorm.(*Statement).AddVar
+//@   min-sites 5
+//@   assert comma-or-parenthesis: arg0 == 44 || arg0 == 40 || arg0 == 41 [C01]
+//@ site builders-never-format-values
+//@   match call strconv.* | call fmt.*
+//@   in gorm.(*Statement).AddVar clause.(*).Build clause.(*).NegationBuild clause.buildExprs
+//@   min-sites 0
+//@   assert no-value-to-text-conversion: false [C01]
 
 //@ # ---------- C10: permission-denied fields are never selected for a write ----------
 //@ spec colName(f) = ite(f.DBName == "", f.Name, f.DBName)
